@@ -12,6 +12,7 @@ key is held by exactly its members, equal everywhere, 16 bytes, drawn by the low
 coalition of t parties misses a key; no key travels to a non-member; prfs() has the same subsets;
 without PRSS no keys exist or travel.
 """
+import asyncio
 import itertools
 import os
 import sys
@@ -345,7 +346,7 @@ def unit_correspondence(ctx):
                     tr = _Tr()
                     cl = asyncoro.MessageExchanger(rt, j)
                     for p in rt.parties:
-                        p.protocol = None
+                        p.protocol = asyncio.Future(loop=net.loop) if p.pid == i else None
                     sent_ok = True
                     try:
                         net.ctx[i].run(cl.connection_made, tr)
@@ -365,7 +366,7 @@ def unit_correspondence(ctx):
                         impl.append(feed_real_server(m, t, j, no_prss, seed, pieces))
                         ctx.count('server_handshake_chunks_' + str(min(len(pieces), 4)))
             dispose(net)
-    model = drv.run(reqs)
+    model = drv.run(reqs, timeout=900)
     ctx.compare('Comb filters / key block / server handshake', impl, model, reqs)
 
 
@@ -375,7 +376,6 @@ def feed_real_server(m, t, j, no_prss, seed, pieces):
     rt = net.rts[j]
     for p in rt.parties:
         p.protocol = None
-    import asyncio
     rt.parties[j].protocol = asyncio.Future(loop=net.loop)
     srv = asyncoro.MessageExchanger(rt)
     try:
@@ -404,7 +404,7 @@ def single_cut_sweep(ctx):
         tr = _Tr()
         cl = asyncoro.MessageExchanger(rt, j)
         for p in rt.parties:
-            p.protocol = None
+            p.protocol = asyncio.Future(loop=net.loop) if p.pid == i else None
         net.ctx[i].run(cl.connection_made, tr)
         stream = bytes(tr.data) + b'\x01\x02\x03'
         dispose(net)
@@ -413,7 +413,7 @@ def single_cut_sweep(ctx):
             reqs.append(f'server {m} {t} {j} 0 {hx(b"".join(toks[j]))} ' + ' '.join(hx(p) for p in pieces))
             impl.append(feed_real_server(m, t, j, False, seed, pieces))
             ctx.case(('cut', m, t, i, j, c))
-    model = drv.run(reqs)
+    model = drv.run(reqs, timeout=900)
     ctx.compare('server handshake, every single cut', impl, model, reqs)
 
 
@@ -449,7 +449,7 @@ def explore(ctx, cases, tag):
                 ctx.sample({'m': m, 't': t, 'seed': seed, 'sched': f'{mode}/{cm}',
                             'handshake_order': [f'{j}>{i}:{c}' for j, i, c in r['events']][:6],
                             'keys_of_party_0': len(r['tables'][0])})
-    model = drv.run(reqs)
+    model = drv.run(reqs, timeout=900)
     ctx.compare(f'final key tables ({tag})', impl, model, reqs)
 
 
